@@ -251,8 +251,25 @@ def check_shape(case, stats):
                 raise Violation(case, "ragged table with counts %r: errors %r, expected %r (stop=%s)" % (counts, r[1], exp, stop))
 
 
+def check_two_tables(case, stats):
+    """several ragged tables in one document: each is reported (at its own first deviating row)"""
+    k = case["tables"]
+    lines, exp = ["Feature: f"], []
+    for i in range(k):
+        lines += [" Scenario: s%d" % i, "  Given x", "   | a | b |", "   | c | d |", "    | e |"]
+        exp.append((len(lines), 5, "(%d:5): %s" % (len(lines), RAGGED)))
+        lines += ["   | f | g | h |"]
+    text = "\n".join(lines) + "\n"
+    stats.case(text, True, sample=case, labels=["tables=%d" % k])
+    r = gh.parse(text)
+    if r[0] == "ok" or r[1] != exp[:11]:
+        raise Violation(case, "%d ragged tables in one document: errors %r, expected %r" % (k, r[1] if r[0] != "ok" else "accepted", exp[:11]))
+
+
 def unit_shape(a):
     stats = Stats()
+    if a["shard"] == 0:
+        sweep(stats, [{"sub": "two-tables", "tables": k} for k in (1, 2, 3, 5, 11, 12)], check_two_tables)
     hyp(stats, st_shape(), check_shape, a["n"], shard_seed(a["seed"], a["shard"], 3))
     return stats
 
@@ -309,6 +326,8 @@ def unit_wide(a):
 
 
 def replay(case, stats):
+    if case.get("sub") == "two-tables":
+        return check_two_tables(case, stats)
     return {"row": check_row, "roundtrip": check_roundtrip, "shape": check_shape, "concurrent": check_concurrent}[case["sub"]](case, stats)
 
 
